@@ -128,14 +128,6 @@ func (e *Evaluator) pushFrame(name string) error {
 	return nil
 }
 
-func (e *Evaluator) popFrame() error {
-	if e.stackTop.parent == nil {
-		panic(fmt.Errorf("attempt to pop root frame"))
-	}
-	e.stackTop = e.stackTop.parent
-	return nil
-}
-
 func (e *Evaluator) getVariable(name string) (*Cell, error) {
 	frame := e.stackTop
 	for frame != nil {
@@ -293,9 +285,13 @@ func (e *Evaluator) evalExpr(expr Expr) (*Cell, error) {
 
 			if isMatch {
 				// TODO using a stack frame is weird
+				saved := e.stackTop
 				if err = e.pushFrame("<match>"); err != nil {
 					return nil, e.error(exp.Token(), err.Error())
 				}
+				// drop the frame however the body is left: a value, an error, or
+				// next/exit/break/continue/return passing through
+				defer func() { e.stackTop = saved }()
 
 				for k, v := range bindings {
 					e.stackTop.locals[k] = v
@@ -313,10 +309,6 @@ func (e *Evaluator) evalExpr(expr Expr) (*Cell, error) {
 					if err != nil {
 						return nil, err
 					}
-				}
-
-				if err := e.popFrame(); err != nil {
-					return nil, err
 				}
 
 				return NewCell(NewValue(nil)), nil
@@ -426,9 +418,13 @@ func (e *Evaluator) callFunction(exp *ExprCall, fn *Cell, args []*Value) (*Cell,
 		f := fn.Value.Fn
 		name := e.lexer.GetString(&f.ident)
 
+		saved := e.stackTop
 		if err := e.pushFrame(name); err != nil {
 			return nil, e.error(exp.Token(), err.Error())
 		}
+		// drop the frame however the body is left: normally, with an error, or
+		// with next/exit passing through
+		defer func() { e.stackTop = saved }()
 
 		for index, argName := range f.Args {
 			if index > len(args)-1 {
@@ -446,10 +442,6 @@ func (e *Evaluator) callFunction(exp *ExprCall, fn *Cell, args []*Value) (*Cell,
 			return nil, err
 		} else {
 			retVal = nil
-		}
-
-		if err := e.popFrame(); err != nil {
-			return nil, err
 		}
 
 		if retVal != nil {
